@@ -1,8 +1,8 @@
 package rules
 
 import (
-	"go/token"
 	"fmt"
+	"go/token"
 	"go/types"
 	"sort"
 	"strings"
@@ -226,8 +226,11 @@ func NewLockAnalysis(c *Ctx, name string, isLock func(string) bool, accesses fun
 			continue
 		}
 		path := (&an.Query{
-			Target:    func(t ssa.Instruction) bool { _, ok := t.(*ssa.Return); return ok },
-			Block:     func(t ssa.Instruction) bool { op, _, ok := la.lockCall(t); return ok && (op == "Unlock" || op == "RUnlock") },
+			Target: func(t ssa.Instruction) bool { _, ok := t.(*ssa.Return); return ok },
+			Block: func(t ssa.Instruction) bool {
+				op, _, ok := la.lockCall(t)
+				return ok && (op == "Unlock" || op == "RUnlock")
+			},
 			BlockEdge: la.prunedEdge,
 		}).Search(an.Entry(f))
 		if path == nil {
